@@ -198,6 +198,17 @@ pub fn large(groups: &mut Vec<Group>) {
     m.push_def(def("LList2", Type::SequenceOf { elem: Box::new(Type::int(0, 255)), size: size_range(0, 70000) }));
     m.push_def(def("LList3", Type::SetOf { elem: Box::new(Type::int(0, 7)), size: Size::None }));
     m.push_def(def("LList4", Type::SequenceOf { elem: Box::new(Type::int(0, 7)), size: size_range(0, 40000) }));
+    // extensible SIZE with a small root: lengths outside the root use the general (fragmentable) length form
+    let ext_small = |a: u64, b: u64| Size::Range(Bound::Lit(a as i128), Bound::Lit(b as i128), true);
+    m.push_def(def("LExt1", Type::SequenceOf { elem: Box::new(Type::Boolean), size: ext_small(1, 4) }));
+    m.push_def(def("LExt2", Type::SetOf { elem: Box::new(Type::int(0, 255)), size: ext_small(0, 300) }));
+    m.push_def(def("LExt3", Type::OctetString { size: ext_small(1, 8) }));
+    m.push_def(def("LExt4", Type::BitString { size: ext_small(3, 3), named: vec![] }));
+    m.push_def(def("LExt5", Type::CharString { cs: Charset::Ia5, size: ext_small(1, 8) }));
+    m.push_def(def("LExt6", Type::CharString { cs: Charset::Numeric, size: ext_small(2, 40000) }));
+    m.push_def(def("LExt7", Type::CharString { cs: Charset::Printable, size: Size::Fixed(Bound::Lit(5), true) }));
+    m.push_def(def("LExt8", Type::CharString { cs: Charset::Visible, size: ext_small(0, 65535) }));
+    m.push_def(def("LExt9", Type::CharString { cs: Charset::Utf8, size: ext_small(1, 8) }));
     groups.push(Group::new("large", vec![m]));
 }
 
